@@ -307,6 +307,9 @@ class Workspace(AbstractContextManager):
 
         entity_kwargs.pop("property_groups", None)
 
+        # the depth data of a drillhole is one of its children: the copy finds its own
+        entity_kwargs.pop("depths", None)
+
         # the copy must not share mutable attribute values with its source
         for key, value in entity_kwargs.items():
             if isinstance(value, (dict, np.ndarray)):
